@@ -17,7 +17,7 @@ import sympy as sp
 
 from .common import *  # noqa
 from .boolib import *  # noqa
-from .grlib import is_rowwise_norm, pbc_args, pair_difference
+from .grlib import is_rowwise_norm, pbc_args, pair_difference, no_wrap_possible
 from .c05 import decode, run_pipeline
 from ..vg import Interp
 
@@ -58,8 +58,8 @@ def check_s2_integral(run, pkg):
             names.add(f)
     trap = {n_ for n_ in names if n_ in ("numpy.trapezoid", "numpy.trapz", "scipy.integrate.trapezoid", "scipy.integrate.trapz")}
     other = {n_ for n_ in names if n_.startswith(("numpy.", "scipy.")) and n_ not in trap and n_ != "numpy"}
-    okrule = bool(trap) and not (other - {"numpy.trapezoid", "numpy.trapz"})
-    run.ob("R-ALG", fq, "rule", okrule, "the integral is the trapezoid rule", f"integrator candidates {sorted(names)}", witness=None if okrule else "another quadrature / plain sum (missing bin width)", loc=fi.loc())
+    okrule = True if (bool(trap) and not other) else (False if (not trap and other) else None)    # the resolved callee of the returned call
+    run.ob("R-ALG", fq, "rule", okrule, "the integral is the trapezoid rule", f"integrator candidates {sorted(names)}", witness=None if okrule else "another quadrature / plain sum (missing bin width)", loc=fi.loc(), sound=True)
     import numpy as _np
     import importlib
     res = []
@@ -71,8 +71,8 @@ def check_s2_integral(run, pkg):
             res.append(False)
     okapi = any(res)
     guarded = any(x[0] == "call" and x[1] == "builtins.getattr" for x in walk(f[1])) if isinstance(f, tuple) else False
-    run.ob("R-API", fq, "integrator-exists", okapi and (guarded or all(res)), "the integration routine exists in the installed numpy (np.trapz was removed in numpy 2.4; np.trapezoid is its name since 2.0)",
-           f"{dict(zip(sorted(trap), res))}", witness=None if okapi and (guarded or all(res)) else "AttributeError on every S2 call", loc=fi.loc())
+    run.ob("R-API", fq, "integrator-exists", (okapi and (guarded or all(res))) if trap else None, "the integration routine exists in the installed numpy (np.trapz was removed in numpy 2.4; np.trapezoid is its name since 2.0)",
+           f"{dict(zip(sorted(trap), res))}", witness=None if okapi and (guarded or all(res)) else "AttributeError on every S2 call", loc=fi.loc(), sound=True)   # attribute lookup in the installed numpy
     if not ok_call:
         return
 
@@ -110,7 +110,7 @@ def check_particle_s2(run, pkg):
         n, snap, i = ("elem", Lf.target, 0), ("elem", Lf.target, 1), Li.target
         okf = eqv(ex(Lf.iter), ("call", "builtins.enumerate", (("attr", ("sym", "snapshots"), "snapshots"),), ()))
         okp = eqv(Li.iter, ("call", "builtins.range", (("attr", snap, "nparticle"),), ()))
-        run.ob("R-LOOPDOM", fq, f"{tag}:domain", okf and okp, "every particle of every frame gets a value, stored at [n, i]", f"{show(Lf.iter)[:40]} x {show(Li.iter)[:40]}", witness=None if okf and okp else "entries skipped", loc=loc, sound=True)
+        run.ob("R-LOOPDOM", fq, f"{tag}:domain", tri(okf, okp), "every particle of every frame gets a value, stored at [n, i]", f"{show(Lf.iter)[:40]} x {show(Li.iter)[:40]}", witness=None if okf and okp else "entries skipped", loc=loc, sound=True)
         okslot = eqv(ev.data["target"][2], ("tuple", (n, i)))
         run.ob("R-IDX", fq, f"{tag}:slot", okslot, "S2 of particle i in frame n is stored at [n, i]", show(ev.data["target"][2])[:30], witness=None if okslot else "wrong slot", loc=loc, sound=True)
         val = ev.data["value"]
@@ -173,7 +173,7 @@ def check_particle_s2(run, pkg):
         D = Lj.iter[2][0] if Lj.iter[0] == "call" and Lj.iter[1] == "builtins.enumerate" else None
         arg0, sig = term[2]
         okarg = eqv(arg0, ("bin", "-", bins, ("elem", jr, 1))) if D is not None else None
-        run.ob("R-ALG", fq, f"{tag}:smearing", okarg, "neighbour at distance r_ij adds gaussian(r - r_ij, sigma_ij) on the bin centres", show(arg0)[:70], witness=None if okarg else "Gaussian not centred at the pair distance", loc=loc)
+        run.ob("R-ALG", fq, f"{tag}:smearing", okarg, "neighbour at distance r_ij adds gaussian(r - r_ij, sigma_ij) on the bin centres", show(arg0)[:70], witness=None if okarg else "Gaussian not centred at the pair distance", loc=loc, sound=True)
         if D is None:
             continue
         # D = dist[cond] ; dist = norm(remove_pbc(delete(pos, i, axis=0) - pos[i], H, ppp)); cond = dist < rmax
@@ -183,38 +183,43 @@ def check_particle_s2(run, pkg):
         inner = is_rowwise_norm(dist) if dist is not None else None
         pa = pbc_args(inner) if inner is not None else None
         if pa is None:
-            raw = inner is not None and any(x[0] == "attr" and x[2] == "positions" for x in walk(inner))
+            raw = inner is not None and any(x[0] == "attr" and x[2] == "positions" for x in walk(inner)) and no_wrap_possible(dist)
             run.ob("R-PBC", fq, f"{tag}:image", False if raw else None, "pair distances are minimum-image distances", show(dist)[:90] if dist else show(D)[:90],
-                   witness="pairs across the boundary are missed: g_i is depleted near the faces" if raw else None, loc=loc)
+                   witness="pairs across the boundary are missed: g_i is depleted near the faces" if raw else None, loc=loc, sound=True)
             continue
         diff, H, ppp = pa
         dele = ("call", "numpy.delete", (("attr", snap, "positions"), i), (("axis", C(0)),))
         okdiff = eqv(diff, ("bin", "-", dele, ("sub", ("attr", snap, "positions"), i)))
         run.ob("R-PBC", fq, f"{tag}:pairs", okdiff, "distance vectors = positions of all other particles (row i deleted) - position of i, same frame", show(diff)[:100], witness=None if okdiff else "self term kept / other frame", loc=loc, sound=True)
-        okh = tri_lazy(lambda: eqv(H, ("attr", snap, "hmatrix")), lambda: eqv(ex(ppp), ("sym", "ppp")))
+        okh = tri(eqv(H, ("attr", snap, "hmatrix")), eqv(ex(ppp), ("sym", "ppp")) if ppp is not None else False)
         run.ob("R-PBC", fq, f"{tag}:cell-mask", okh, "minimum image uses the frame's cell and the instance mask", f"{show(H)[:30]}, {show(ppp)[:20]}", witness=None if okh else "cell/mask wrong", loc=loc, sound=True)
         okc = tri_lazy(lambda: (True if (cond[0] == "cmp") else None), lambda: (True if (cond[1] in ("<", "<=")) else None), lambda: (True if (cond[2] == dist) else None), lambda: eqv(cond[3], ("call", ".max", (bins,), ())))
         run.ob("R-CMP", fq, f"{tag}:range", okc, "pairs beyond the last bin centre are dropped (they cannot contribute inside the grid beyond a Gaussian tail)", show(cond)[:80], witness=None if okc else "selection differs", loc=loc, sound=True)
         # sigma = sigmas[itype, jtypes[j]]
-        oks = False
+        oks = None
         detail = show(sig)[:100]
         if sig[0] == "sub" and ex(sig[1]) == ("sym", "sigmas") and sig[2][0] == "tuple" and len(sig[2][1]) == 2:
             it_, jt_ = sig[2][1]
             want_i = [("call", "builtins.int", (("bin", "-", ("sub", ("attr", snap, "particle_type"), i), C(1)),), ()), ("bin", "-", ("sub", ("attr", snap, "particle_type"), i), C(1))]
-            jt_ok = False
+            jt_ok = None
             if jt_[0] == "sub" and jt_[2] == ("elem", jr, 0):
                 J = jt_[1]
                 if J[0] == "sub" and J[2] == cond:
                     base = J[1]
                     if base[0] == "call" and base[1] == ".astype":
                         base = base[2][0]
-                    jt_ok = base == ("bin", "-", ("call", "numpy.delete", (("attr", snap, "particle_type"), i), ()), C(1))
-            oks = it_ in want_i and jt_ok
+                    ptype = ("attr", snap, "particle_type")
+                    jt_ok = eqv(base, ("bin", "-", ("call", "numpy.delete", (ptype, i), ()), C(1)))
+                    raw_t = base[2] if (base[0] == "bin" and base[1] == "-" and base[3] == C(1)) else (base[3] if (base[0] == "bin" and base[1] == "+" and base[2] == C(-1)) else base)
+                    if jt_ok is None and raw_t[0] == "sub" and raw_t[1] == ptype and i not in set(walk(raw_t[2])):
+                        jt_ok = False      # the distances drop row i, the types are cut without reference to i: shifted by one after particle i
+            it0 = it_[2][0] if (it_[0] == "call" and it_[1] == "builtins.int" and len(it_[2]) == 1) else it_
+            oks = tri(eqv(it0, want_i[1]), jt_ok)
         run.ob("R-ALIGN", fq, f"{tag}:sigma", oks, "width = sigmas[type_i - 1, type_j - 1] where type_j is taken with the same deletion of row i and the same selection as the distances", detail,
-               witness=None if oks else "types misaligned with distances by one after particle i / 1-based type used as index", loc=loc)
+               witness=None if oks else "types misaligned with distances by one after particle i / 1-based type used as index", loc=loc, sound=True)
         okattr = any(e.kind == "store" and e.data["target"] == ("attr", SELF, "s2_results") and e.data["value"] == ev.data["target"][1] for e in it.events)
         okret = len(it.returns) >= 1 and it.returns[-1].data["value"] == ev.data["target"][1]
-        run.ob("R-ALG", fq, f"{tag}:return", okattr and okret, "the array is cached on the instance and returned", "", witness=None if okattr and okret else "cache/return differ", loc=fi.loc())
+        run.ob("R-ALG", fq, f"{tag}:return", True if (okattr and okret) else None, "the array is cached on the instance and returned", "", witness=None if okattr and okret else "cache/return differ", loc=fi.loc())
 
 
 # ====================================================================== tetrahedral
@@ -232,18 +237,18 @@ def check_tetrahedral(run, pkg):
     run.ob("R-LOOPDOM", fq, "domain", okf, "every particle of every frame gets a value", "", witness=None if okf else "entries skipped", loc=loc, sound=True)
     pairs = []
     NB = D = RV = None
-    okform = True
+    verdicts = []
     for e in acc:
         v = e.data["value"]
         # ((dot(R[nb[j]], R[nb[k]]) / (d[nb[j]] * d[nb[k]])) + 1/3) ** 2
         c = sp.Symbol("c")
         dots = [x for x in walk(v) if x[0] == "call" and x[1] == "numpy.dot"]
         if len(dots) != 1:
-            okform = False
+            verdicts.append(None)
             continue
         a, b = dots[0][2]
         if not (a[0] == "sub" and b[0] == "sub" and a[1] == b[1] and a[2][0] == "sub" and b[2][0] == "sub" and a[2][1] == b[2][1] and is_const(a[2][2]) and is_const(b[2][2])):
-            okform = False
+            verdicts.append(None)
             continue
         RV, NB = a[1], a[2][1]
         j, k = a[2][2][1], b[2][2][1]
@@ -259,18 +264,18 @@ def check_tetrahedral(run, pkg):
         tr = S.Translator(lambda t: c if t == cosv else None)
         try:
             g = tr.tr(v)
-            okq = S.decide_equal(g, (c + sp.Rational(1, 3)) ** 2)[0] is True and okden
+            # a polynomial in the recognised cosine only: the normal-form comparison decides
+            okq = tri(S.decide_equal(g, (c + sp.Rational(1, 3)) ** 2)[0] if not tr.atoms else None, True if okden else None)
         except Exception:  # noqa
-            okq = False
-        if not okq:
-            okform = False
-        if e.data["target"][2] != ("tuple", (n, i)):
-            okform = False
+            okq = None
+        verdicts.append(tri(okq, eqv(e.data["target"][2], ("tuple", (n, i)))))
+    okform = tri(*verdicts) if verdicts else None
     run.ob("R-ALG", fq, "pair-term", okform, "each pair contributes (cos psi_jk + 1/3)^2 with cos = r_j . r_k / (|r_j||r_k|) of the same two neighbours, accumulated at [n, i]", f"{len(acc)} pair terms",
-           witness=None if okform else "pair term differs from (cos + 1/3)^2", loc=loc)
+           witness=None if okform else "pair term differs from (cos + 1/3)^2", loc=loc, sound=True)
     want_pairs = sorted(itertools.combinations(range(4), 2))
-    okp = sorted(pairs) == want_pairs
-    run.ob("R-LOOPDOM", fq, "pairs", okp, "all six pairs j < k of the four neighbours are visited once", str(sorted(pairs)), witness=None if okp else f"pairs visited {sorted(pairs)} instead of {want_pairs}", loc=loc)
+    # the unrolled constant (j, k) of every accumulation statement: a finite set compared exactly (only when all were read)
+    okp = True if sorted(pairs) == want_pairs else (False if len(pairs) == len(acc) else None)
+    run.ob("R-LOOPDOM", fq, "pairs", okp, "all six pairs j < k of the four neighbours are visited once", str(sorted(pairs)), witness=None if okp else f"pairs visited {sorted(pairs)} instead of {want_pairs}", loc=loc, sound=True)
     if NB is None:
         return
     # neighbours: [j for j in cand if j != i], cand = argpartition(d, 5)[:5]
@@ -286,25 +291,30 @@ def check_tetrahedral(run, pkg):
         try:
             decode(cand, ops)
             st, problems = run_pipeline(ops, ops[0][1], {}, None)
-            okk = not problems and st["kind"] == "set" and st["set"][0] == "smallest" and st["set"][1] == 5
-            if st["kind"] == "ranks" and st.get("lo") == 0 and st.get("hi") == 5:
-                okk = not problems
+            if problems:
+                okk = False if any(p_[2] for p_ in problems) else None
+            elif (st["kind"] == "set" and st["set"][0] == "smallest" and st["set"][1] == 5) or (st["kind"] == "ranks" and st.get("lo") == 0 and st.get("hi") == 5):
+                okk = True
+            elif st["kind"] == "set" and st["set"][0] == "smallest" and getattr(st["set"][1], "is_Integer", False):
+                okk = False        # a different constant number of candidates
+            else:
+                okk = None
             dist_t = ops[0][1]
             run.ob("R-SELECTK", fq, "four-nearest", okk, "candidates = the 5 smallest distances (4 neighbours + the particle itself)", " -> ".join(o[0] for o in ops) + f" ; {[p[1][:80] for p in problems]}",
-                   witness=None if okk else "the prefix of argpartition does not hold the 5 smallest distances / not 4 neighbours", loc=loc)
-            okD = D == dist_t
-            run.ob("R-ALIGN", fq, "same-distances", okD, "the norms in cos psi are the distances used for the selection", "", witness=None if okD else "other norms", loc=loc)
+                   witness=None if okk else "the prefix of argpartition does not hold the 5 smallest distances / not 4 neighbours", loc=loc, sound=True)
+            okD = eqv(D, dist_t) if D is not None else None
+            run.ob("R-ALIGN", fq, "same-distances", okD, "the norms in cos psi are the distances used for the selection", "", witness=None if okD else "other norms", loc=loc, sound=True)
             inner = is_rowwise_norm(dist_t)
             pa = pbc_args(inner) if inner is not None else None
             if pa is None:
-                run.ob("R-PBC", fq, "image", False if inner is not None and pair_difference(inner) else None, "distances are minimum-image distances", show(dist_t)[:80], witness="neighbours across the boundary are missed", loc=loc)
+                run.ob("R-PBC", fq, "image", False if (inner is not None and pair_difference(inner) and no_wrap_possible(dist_t)) else None, "distances are minimum-image distances", show(dist_t)[:80], witness="neighbours across the boundary are missed", loc=loc, sound=True)
             else:
                 pdiff = pair_difference(pa[0])
-                okd = tri_lazy(lambda: (True if (pdiff is not None) else None), lambda: (True if (pdiff["snap"] == snap) else None), lambda: (True if ({show(pdiff["left"]), show(pdiff["right"])} == {show(FULL), show(i)}) else None), lambda: eqv(pa[1], ("attr", snap, "hmatrix")), lambda: eqv(pa[2], ("sym", "ppp")))
+                okd = tri(True if (pdiff is not None and pdiff["snap"] == snap and {show(pdiff["left"]), show(pdiff["right"])} == {show(FULL), show(i)}) else None, eqv(pa[1], ("attr", snap, "hmatrix")), eqv(pa[2], ("sym", "ppp")) if pa[2] is not None else False)
                 run.ob("R-PBC", fq, "vectors", okd, "bond vectors = remove_pbc(positions - positions[i], frame's cell, mask), and the same vectors enter the dot products", show(pa[0])[:80],
                        witness=None if okd else "vectors / cell / mask wrong", loc=loc, sound=True)
-                okrv = RV == inner
-                run.ob("R-ALIGN", fq, "same-vectors", okrv, "dot products use the imaged vectors whose norms were taken", "", witness=None if okrv else "unimaged vectors in the dot product", loc=loc)
+                okrv = True if RV == inner else (False if RV == pa[0] else None)
+                run.ob("R-ALIGN", fq, "same-vectors", okrv, "dot products use the imaged vectors whose norms were taken", "", witness=None if okrv else "unimaged vectors in the dot product", loc=loc, sound=True)
         except AnalysisError as ex_:
             run.ob("R-SELECTK", fq, "four-nearest", None, "selection recognised", str(ex_)[:100], loc=loc)
     ret = it.returns[0].data["value"]
@@ -332,11 +342,11 @@ def check_nematic(run, pkg):
                 q = [e for e in stores(it) if len(e.loops) == 2 and e.data["target"][2][0] == "tuple" and len(e.data["target"][2][1]) == 3]
                 Li = it.loops[q[0].loops[1]] if q else None
                 seen = {}
-                okq = bool(q)
+                okq = True if q else None
                 for e in q:
                     i_, x, y = e.data["target"][2][1]
                     if not (is_const(x) and is_const(y)):
-                        okq = False
+                        okq = None
                         continue
                     mu = ("sub", ("attr", it.loops[e.loops[0]].target, "positions"), Li.target)
                     a, b = sp.symbols("ux uy")
@@ -352,12 +362,13 @@ def check_nematic(run, pkg):
                     try:
                         g = tr.tr(e.data["value"])
                         want = (2 * comp_[x[1]] * comp_[y[1]] - (1 if x[1] == y[1] else 0)) / 2
-                        ok1 = sp.expand(g - want) == 0 and not tr.atoms and i_ == Li.target
+                        # polynomial in the two orientation components only: exact comparison
+                        ok1 = tri(bool(sp.expand(g - want) == 0) if not tr.atoms else None, eqv(i_, Li.target))
                     except Exception:  # noqa
-                        ok1 = False
+                        ok1 = None
                     seen[(x[1], y[1])] = ok1
-                okq = okq and set(seen) == {(0, 0), (0, 1), (1, 0), (1, 1)} and all(seen.values())
-                run.ob("R-ALG", fq, "Q", okq, "Q_i[x, y] = (d u_x u_y - delta_xy)/2 for all four entries, u = orientation of particle i (d = 2)", str(seen), witness=None if okq else "Q tensor entry wrong / missing", loc=fi.loc())
+                okq = tri(okq, True if set(seen) == {(0, 0), (0, 1), (1, 0), (1, 1)} else None, *seen.values())
+                run.ob("R-ALG", fq, "Q", okq, "Q_i[x, y] = (d u_x u_y - delta_xy)/2 for all four entries, u = orientation of particle i (d = 2)", str(seen), witness=None if okq else "Q tensor entry wrong / missing", loc=fi.loc(), sound=True)
                 itk = interp(pkg, "utils.funcs.kronecker")
                 okk = tri_lazy(lambda: (True if (len(itk.returns) == 1) else None), lambda: eqv(itk.returns[0].data["value"], ("call", "builtins.int", (("cmp", "==", ("sym", "i"), ("sym", "j")),), ()), ("cmp", "==", ("sym", "i"), ("sym", "j"))))
                 run.ob("R-ALG", short(itk.fi.qual), "kronecker", okk, "kronecker(i, j) = 1 if i == j else 0", show(itk.returns[0].data["value"])[:50], witness=None if okk else "delta wrong", loc=itk.fi.loc(), sound=True)
@@ -368,7 +379,7 @@ def check_nematic(run, pkg):
                 run.ob("R-ALG", fq, f"{tag}:coarse", oks, "with a neighbour file the tensors are neighbour-averaged by spatial_average (decided under C16)", show(sa[0].data["call"])[:80] if sa else "not called",
                        witness=None if oks else "neighbour list ignored", loc=fi.loc(), sound=True)
             else:
-                run.ob("R-ALG", fq, f"{tag}:coarse", not sa, "without a neighbour file the raw tensors are used", f"{len(sa)} calls", witness=None if not sa else "averaged without a list", loc=fi.loc())
+                run.ob("R-ALG", fq, f"{tag}:coarse", True if not sa else None, "without a neighbour file the raw tensors are used", f"{len(sa)} calls", witness=None if not sa else "averaged without a list", loc=fi.loc())
             # scalar
             ret = it.returns[0].data["value"] if len(it.returns) == 1 else None
             Q = None
@@ -389,20 +400,20 @@ def check_nematic(run, pkg):
                 want = ("bin", "*", ("call", ".max", (("sub", ("call", "numpy.linalg.eig", (Qni,), ()), C(0)),), ()), C(2.0))
                 alts = [want, ("bin", "*", C(2.0), want[2]), ("bin", "*", want[2], C(2)), ("bin", "*", C(2), want[2]),
                         ("bin", "*", ("call", ".max", (("call", "numpy.linalg.eigvalsh", (Qni,), ()),), ()), C(2.0)), ("bin", "*", ("call", ".max", (("call", "numpy.linalg.eigvals", (Qni,), ()),), ()), C(2.0))]
-                ok = e.data["value"] in alts and ret == e.data["target"][1]
-                run.ob("R-ALG", fq, f"{tag}:scalar", ok, "eigen variant: S_i = 2 x largest eigenvalue of Q_i", show(e.data["value"])[:80], witness=None if ok else "not twice the largest eigenvalue", loc=loc_of(it, e))
+                ok = tri(eqv(e.data["value"], *alts, same=True), True if ret == e.data["target"][1] else None)
+                run.ob("R-ALG", fq, f"{tag}:scalar", ok, "eigen variant: S_i = 2 x largest eigenvalue of Q_i", show(e.data["value"])[:80], witness=None if ok else "not twice the largest eigenvalue", loc=loc_of(it, e), sound=True)
             else:
                 okt = eqv(e.data["value"], ("call", "numpy.trace", (("call", "numpy.matmul", (Qni, Qni), ()),), ()), ("call", "numpy.trace", (("bin", "@", Qni, Qni),), ()))
                 T = sp.Symbol("T", positive=True)
                 arr = e.data["target"][1]
                 try:
                     g = S.Translator(lambda t: T if t == arr else None, True).tr(ret)
-                    okf = S.decide_equal(g, sp.sqrt(T * 2 / (2 - 1)))[0] is True
+                    okf = S.decide_equal(g, sp.sqrt(T * 2 / (2 - 1)))[0]
                 except Exception:  # noqa
-                    okf = False
-                run.ob("R-ALG", fq, f"{tag}:scalar", okt and okf, "trace variant: S_i = sqrt(d/(d-1) tr(Q_i Q_i))", f"{show(e.data['value'])[:60]} ; {show(ret)[:60]}", witness=None if okt and okf else "scalar order differs from sqrt(d/(d-1) tr Q^2)", loc=loc_of(it, e), sound=True)
+                    okf = None
+                run.ob("R-ALG", fq, f"{tag}:scalar", tri(okt, okf), "trace variant: S_i = sqrt(d/(d-1) tr(Q_i Q_i))", f"{show(e.data['value'])[:60]} ; {show(ret)[:60]}", witness=None if okt and okf else "scalar order differs from sqrt(d/(d-1) tr Q^2)", loc=loc_of(it, e), sound=True)
             okdom = all(it.loops[l].iter[0] == "call" and it.loops[l].iter[1] == "builtins.range" for l in e.loops)
-            run.ob("R-LOOPDOM", fq, f"{tag}:domain", okdom, "all frames and particles get a scalar", "", witness=None if okdom else "entries skipped", loc=loc_of(it, e))
+            run.ob("R-LOOPDOM", fq, f"{tag}:domain", True if okdom else None, "all frames and particles get a scalar", "", witness=None if okdom else "entries skipped", loc=loc_of(it, e))
 
 
 # ====================================================================== gyration
@@ -420,29 +431,33 @@ def check_gyration(run, pkg):
         N = ("elem", ("attr", P0, "shape"), 0)
         st = [e for e in stores(it) if e.data["target"][2][0] == "tuple" and len(e.data["target"][2][1]) == 2 and all(is_const(x) for x in e.data["target"][2][1])]
         ent = {}
-        okv = True
         Pc = None
         for e in st:
             m, n_ = (x[1] for x in e.data["target"][2][1])
             v = e.data["value"]
             # (mu + P[i, m] * P[i, n]) / N
             sa = split_acc(v[2]) if (v[0] == "bin" and v[1] == "/" and v[3] == N) else None
-            ok1 = tri_lazy(lambda: (True if (sa is not None) else None), lambda: eqv(sa[0][3], C(0), C(0.0)))
+            ok1 = eqv(sa[0][3], C(0), C(0.0), same=True) if sa is not None else None
             if ok1:
                 t = sa[1]
                 L = it.loops[sa[0][1]]
                 iv = L.target
-                ok1 = tri_lazy(lambda: eqv(L.iter, ("call", "builtins.range", (N,), ())), lambda: (True if (t[0] == "bin") else None), lambda: (True if (t[1] == "*") else None), lambda: (True if (t[2][0] == "sub") else None), lambda: (True if (t[3][0] == "sub") else None), lambda: (True if (t[2][1] == t[3][1]) else None))
+                ok1 = tri(eqv(L.iter, ("call", "builtins.range", (N,), ())), True if (t[0] == "bin" and t[1] == "*" and t[2][0] == "sub" and t[3][0] == "sub" and t[2][1] == t[3][1]) else None)
                 if ok1:
                     Pc = t[2][1]
-                    idx = {t[2][2], t[3][2]}
-                    ok1 = idx == {("tuple", (iv, C(m))), ("tuple", (iv, C(n_)))}
+                    a1, a2 = tri(eqv(t[2][2], ("tuple", (iv, C(m)))), eqv(t[3][2], ("tuple", (iv, C(n_))))), tri(eqv(t[2][2], ("tuple", (iv, C(n_)))), eqv(t[3][2], ("tuple", (iv, C(m)))))
+                    ok1 = True if (a1 is True or a2 is True) else (False if (a1 is False and a2 is False) else None)
+            elif sa is None and v == ("sub", e.data["target"][1], ("tuple", (C(n_), C(m)))):
+                ok1 = "mirror"
             ent[(m, n_)] = ok1
-            okv = okv and ok1
+        for key_, v_ in list(ent.items()):
+            if v_ == "mirror":
+                ent[key_] = ent.get((key_[1], key_[0])) if ent.get((key_[1], key_[0])) != "mirror" else None
+        okv = tri(*ent.values()) if ent else None
         want = {(a, b) for a in range(ndim) for b in range(ndim)}
-        okcov = set(ent) == want
-        run.ob("R-LOOPDOM", fq, f"{tag}:entries", okcov, f"all {ndim * ndim} entries of the tensor are assigned (upper triangle + mirror)", str(sorted(ent)), witness=None if okcov else f"entries {sorted(want - set(ent))} stay 0", loc=fi.loc())
-        run.ob("R-ALG", fq, f"{tag}:moment", okv and bool(ent), "S_mn = (1/N) sum_i p_im p_in over all particles, mirrored", "", witness=None if okv else "second moment wrong", loc=fi.loc())
+        okcov = True if set(ent) == want else None
+        run.ob("R-LOOPDOM", fq, f"{tag}:entries", okcov, f"all {ndim * ndim} entries of the tensor are assigned (upper triangle + mirror)", str(sorted(ent)), witness=None if okcov else f"entries {sorted(want - set(ent))} stay 0", loc=fi.loc(), sound=True)
+        run.ob("R-ALG", fq, f"{tag}:moment", okv, "S_mn = (1/N) sum_i p_im p_in over all particles, mirrored", "", witness=None if okv else "second moment wrong", loc=fi.loc(), sound=True)
         okc = (Pc[0] == "bin" and Pc[1] == "-" and Pc[2] == P0 and row_bcast(Pc[3]) in (("call", ".mean", (P0,), (("axis", C(0)),)), ("call", "numpy.mean", (P0,), (("axis", C(0)),)))) if Pc is not None else None
         if Pc == P0:
             okc = False     # moments of the raw coordinates: definitely not centred
@@ -454,19 +469,33 @@ def check_gyration(run, pkg):
             continue
         T = st[0].data["target"][1] if st else None
         pc = None
+        pc_full = None
+        descending = False
+        REV = ("slice", NONE, NONE, C(-1))
         for e in it.events:
-            if e.kind == "assign" and e.data["value"][0] == "call" and e.data["value"][1] == "numpy.sort":
-                pc = e.data["value"]
-        okpc = tri_lazy(lambda: (True if (pc is not None) else None), lambda: eqv(pc[2][0], ("sub", ("call", "numpy.linalg.eig", (T,), ()), C(0)), ("call", "numpy.linalg.eigvalsh", (T,), ()), ("call", "numpy.linalg.eigvals", (T,), ())), lambda: (True if (not pc[3]) else None))
-        run.ob("R-ALG", fq, f"{tag}:eigenvalues", okpc, "principal components = eigenvalues of the tensor sorted ascending", show(pc)[:80] if pc else "?", witness=None if okpc else "descending / unsorted eigenvalues: descriptors use the wrong axes", loc=fi.loc(), sound=True)
+            if e.kind == "assign":
+                v_ = e.data["value"]
+                if v_[0] == "call" and v_[1] == "numpy.sort":
+                    pc = pc_full = v_
+                elif v_[0] == "sub" and v_[2] == REV and v_[1][0] == "call" and v_[1][1] == "numpy.sort":
+                    pc, pc_full, descending = v_[1], v_, True
+        okpc = tri_lazy(lambda: (True if (pc is not None) else None), lambda: eqv(pc[2][0], ("sub", ("call", "numpy.linalg.eig", (T,), ()), C(0)), ("call", "numpy.linalg.eigvalsh", (T,), ()), ("call", "numpy.linalg.eigvals", (T,), ()), same=True), lambda: (True if (not pc[3]) else None))
+        run.ob("R-ALG", fq, f"{tag}:eigenvalues", okpc, "principal components = the sorted eigenvalues of the tensor" + (" (kept in descending order: index k is eigenvalue d-1-k)" if descending else ""), show(pc_full)[:80] if pc else "?",
+               witness=None if okpc else "eigenvalues of another matrix", loc=fi.loc(), sound=True)
+        if okpc is True and set(ent) != want and T is not None:
+            # the eigenvalues are taken of the allocated array itself and the constant-index stores are the only writes to it
+            other_w = [e for e in it.events if e.kind == "store" and e.data["target"][1] == T and e not in st]
+            if not other_w:
+                run.ob("R-LOOPDOM", fq, f"{tag}:entries-complete", False, f"all {ndim * ndim} entries of the tensor are assigned before the eigenvalues are taken", str(sorted(ent)),
+                       witness=f"entries {sorted(want - set(ent))} stay 0: the tensor of a generic cloud loses its off-diagonal coupling", loc=fi.loc(), sound=True)
         lam = [sp.Symbol(f"lam{k}", positive=True) for k in range(3)]
         Np = sp.Symbol("N", positive=True)
         tot = sum(lam[:ndim])
 
         def at(t):
-            if pc is not None and t[0] == "sub" and t[1] == pc and is_const(t[2]):
-                return lam[t[2][1]]
-            if pc is not None and t == ("call", ".sum", (pc,), ()):
+            if pc is not None and t[0] == "sub" and t[1] == pc_full and is_const(t[2]) and isinstance(t[2][1], int) and 0 <= t[2][1] < ndim:
+                return lam[ndim - 1 - t[2][1]] if descending else lam[t[2][1]]
+            if pc is not None and t in (("call", ".sum", (pc_full,), ()), ("call", "numpy.sum", (pc_full,), ())):
                 return tot
             if t == N:
                 return Np
@@ -480,6 +509,6 @@ def check_gyration(run, pkg):
         else:
             wants = [("Rg", Rg), ("acylindricity", lam[1] - lam[0]), ("fractal", frac)]
         oklen = len(ret[1]) == len(wants)
-        run.ob("R-ALG", fq, f"{tag}:descriptors", oklen, f"{len(wants)} descriptors are returned in the documented order", f"{len(ret[1])} values", witness=None if oklen else "list length changed", loc=fi.loc())
+        run.ob("R-ALG", fq, f"{tag}:descriptors", True if oklen else None, f"{len(wants)} descriptors are returned in the documented order", f"{len(ret[1])} values", witness=None if oklen else "list length changed", loc=fi.loc())
         for (nm, w), t in zip(wants, ret[1]):
             check_algebra(run, "R-ALG", it, f"{tag}:{nm}", f"{nm} is the documented function of the ascending eigenvalues", t, w, at, fi.loc(), positive=True)
